@@ -7,6 +7,7 @@
 package model
 
 import (
+	"encoding/json"
 	"fmt"
 	"math"
 	"reflect"
@@ -31,6 +32,8 @@ type World struct {
 	ProbeVals []interface{} // scalar probes for Contains/IndexOf/KeyOf
 	ProbeKeys []string
 	UseShape  bool // include private len/cap/aliasing in the key
+	OnlyString bool  // Check performs only the String() observation (used by C02's history sub-space)
+	NoString  bool   // skip the String() observation (scenarios whose values are not JSON-representable)
 	Tag       string // scenario-specific marker that is part of the state key (e.g. the construction route)
 }
 
@@ -255,6 +258,40 @@ func (w *World) Check() (msg, sig string) {
 	probes = append(probes, w.ProbeVals...)
 	for _, c := range conts {
 		probes = append(probes, c)
+	}
+	// String() of every register root must denote the model content (decoded by encoding/json). Calling
+	// it after every transition also makes serialisation part of every history, so state that a
+	// serialiser keeps between calls (caches, flags) is exercised.
+	if !w.NoString {
+		for _, reg := range w.Regs {
+			if reg == nil {
+				continue
+			}
+			var text string
+			r := w.real[reg]
+			if try(func() {
+				switch x := r.(type) {
+				case at.List:
+					text = x.String()
+				case at.Object:
+					text = x.String()
+				}
+			}) {
+				return fmt.Sprintf("String() panicked on %s", Show(reg)), "observe/string-panic"
+			}
+			d := json.NewDecoder(strings.NewReader(text))
+			d.UseNumber()
+			var dec interface{}
+			if err := d.Decode(&dec); err != nil {
+				return fmt.Sprintf("String() of %s is %q: not decodable: %v", Show(reg), text, err), "observe/string-invalid"
+			}
+			if why := matchDecoded(dec, reg); why != "" {
+				return fmt.Sprintf("String() of a container that should be %s is %q: %s", Show(reg), text, why), "observe/string-content"
+			}
+		}
+	}
+	if w.OnlyString {
+		return "", ""
 	}
 	for _, c := range conts {
 		switch m := c.(type) {
@@ -782,5 +819,85 @@ func (w *World) bindIfKind(m interface{}, rv interface{}) {
 		if o, ok := rv.(at.Object); ok && o != nil {
 			w.real[m] = o
 		}
+	}
+}
+
+
+// matchDecoded compares what encoding/json (UseNumber) decoded with a model value.
+func matchDecoded(dec interface{}, mv interface{}) string {
+	switch x := mv.(type) {
+	case nil:
+		if dec != nil {
+			return fmt.Sprintf("want null, text has %v", dec)
+		}
+	case bool:
+		if b, ok := dec.(bool); !ok || b != x {
+			return fmt.Sprintf("want %v, text has %v", x, dec)
+		}
+	case int:
+		n, ok := dec.(json.Number)
+		if !ok || string(n) != strconv.Itoa(x) {
+			return fmt.Sprintf("want int %d, text has %v", x, dec)
+		}
+	case float64:
+		n, ok := dec.(json.Number)
+		if !ok {
+			return fmt.Sprintf("want float %v, text has %v", x, dec)
+		}
+		f, err := strconv.ParseFloat(string(n), 64)
+		if err != nil || f != x || !strings.ContainsAny(string(n), ".eE") {
+			return fmt.Sprintf("want float %v, text has literal %s", x, n)
+		}
+	case string:
+		if s, ok := dec.(string); !ok || s != x {
+			return fmt.Sprintf("want string %q, text has %v", x, dec)
+		}
+	case *L:
+		l, ok := dec.([]interface{})
+		if !ok || len(l) != len(x.E) {
+			return fmt.Sprintf("want a list of %d, text has %v", len(x.E), dec)
+		}
+		for i := range l {
+			if why := matchDecoded(l[i], x.E[i]); why != "" {
+				return fmt.Sprintf("#%d: %s", i, why)
+			}
+		}
+	case *O:
+		o, ok := dec.(map[string]interface{})
+		if !ok || len(o) != len(x.M) {
+			return fmt.Sprintf("want an object of %d keys, text has %v", len(x.M), dec)
+		}
+		for k, v := range x.M {
+			dv, in := o[k]
+			if !in {
+				return fmt.Sprintf("key %q missing in the text", k)
+			}
+			if why := matchDecoded(dv, v); why != "" {
+				return fmt.Sprintf(".%s: %s", k, why)
+			}
+		}
+	}
+	return ""
+}
+
+
+// Touch calls the cheap observers with potential hidden side effects (String) on every register root.
+func (w *World) Touch() {
+	if w.NoString {
+		return
+	}
+	for _, reg := range w.Regs {
+		if reg == nil {
+			continue
+		}
+		r := w.real[reg]
+		try(func() {
+			switch x := r.(type) {
+			case at.List:
+				_ = x.String()
+			case at.Object:
+				_ = x.String()
+			}
+		})
 	}
 }
